@@ -31,6 +31,7 @@ from xsdlib import REPO, XS, Schemas, write_if_changed  # noqa: E402
 
 sys.path.insert(0, REPO + "/src")
 VERIF = os.path.dirname(os.path.dirname(os.path.abspath(__file__)))
+KF_PATH = os.path.join(VERIF, "known_findings.json")
 PRESET_XML = (REPO + "/spec/ISO-IEC-29500-1/schemas/dml-geometries/OfficeOpenXML-DrawingMLGeometries/"
               "presetShapeDefinitions.xml")
 
@@ -476,9 +477,8 @@ def main():
 
     # known findings
     known = set()
-    kf_path = os.path.join(VERIF, "known_findings.json")
-    if os.path.exists(kf_path):
-        for e in json.load(open(kf_path)):
+    if os.path.exists(KF_PATH):
+        for e in json.load(open(KF_PATH)):
             if e.get("property") == "C20" and e.get("status") == "known":
                 for s in e.get("signature", "").split(";"):
                     known.add(s.strip())
@@ -616,8 +616,10 @@ def main():
         rows = ";\n".join("  {| m_id := %d; m_name := %s; m_value := %s; m_xml := %s |}" % (
             r["id"], cps(r["name"]), coq_z(r["value"]), coq_opt_str(r["xml"])) for r in e["rows"])
         L.append("Definition rows_%d : list member := [\n%s\n]." % (e["id"], rows))
-    L.append("Definition enums : list enum := [\n%s\n]." % ";\n".join(
-        "  {| e_id := %d; e_name := %s; e_rows := rows_%d |}" % (e["id"], cps(e["name"]), e["id"]) for e in enums))
+    for e in enums:
+        L.append("Definition enum_%d : enum := {| e_id := %d; e_name := %s; e_rows := rows_%d |}." % (
+            e["id"], e["id"], cps(e["name"]), e["id"]))
+    L.append("Definition enums : list enum := [%s]." % "; ".join("enum_%d" % e["id"] for e in enums))
     srt = sorted(stypes.values(), key=lambda s: s["id"])
     for s in srt:
         L.append("Definition stype_%d : stype := {| s_id := %d; s_tokens := %s |}." % (
@@ -626,8 +628,9 @@ def main():
     L.append("Definition stypes : list stype := [%s]." % "; ".join("stype_%d" % s["id"] for s in srt))
     L.append("Definition uses : list use := [\n%s\n]." % ";\n".join(
         "  {| u_id := %d; u_enum := %d; u_stype := %d |}" % (u["id"], u["enum_id"], u["stype_id"]) for u in uses))
-    L.append("Definition shape_enum : N := %d." % enum_id[shape_enum])
-    L.append("Definition shape_rows : list member := rows_%d." % enum_id[shape_enum])
+    L.append("Definition shape_enum : enum := enum_%d." % enum_id[shape_enum])
+    L.append("Definition shape_enum_index : nat := %d%%nat." % enum_id[shape_enum])
+    L.append("Definition shape_rows : list member := e_rows shape_enum.")
     L.append("Definition spec_table : list spec_row := [\n%s\n]." % ";\n".join(
         "  {| sp_value := %s; sp_av := [%s] |}" % (
             coq_z(r["value"]), "; ".join("(%s, %s)" % (cps(n), coq_z(v)) for n, v in r["av"])) for r in spec_rows))
